@@ -192,9 +192,68 @@ def generate(ctx):
     return cases
 
 
+def summary(case):
+    """what decoding / a round trip of this case gives, as plain text (computed in this process and, for a
+    sample, in a child interpreter started with -O: the two must agree)"""
+    import attr
+
+    try:
+        if case["cls"] == "legacy":
+            name, legacy, current = legacy_cases(random.Random(case["seed"]))[case["index"]]
+            C = objgen.cls_of(name)
+            a = C.from_dict(rekey(legacy))
+            b = C.from_dict(copy.deepcopy(current))
+            return {"equal": a == b, "dict": repr(a.to_dict()), "id": repr(getattr(a, "id", None))}
+        name = case["cls"]
+        rng = random.Random(case["seed"])
+        o = objgen.build(name, objgen.gen_kwargs(rng, name))
+        if case.get("explicit_id") and hasattr(o, "id"):
+            o = attr.evolve(o, id=bytes(rng.randrange(256) for _ in range(20)))
+        d = o.to_dict()
+        o2 = type(o).from_dict(rekey(copy.deepcopy(d)))
+        return {"equal": o2 == o, "dict": repr(o2.to_dict()), "id": repr(getattr(o2, "id", None))}
+    except Exception as e:
+        return {"raises": type(e).__name__}
+
+
+def optimised_interpreter(ctx, cases):
+    import json
+    import os
+    import shutil
+    import subprocess
+    import sys
+
+    from common import scratch_dir
+
+    if len(cases) <= 3 and not any(c.get("interpreter") for c in cases):
+        return
+    sample = [c for c in cases if c["cls"] == "legacy"] + [c for i, c in enumerate(cases) if c["cls"] != "legacy" and i % 7 == 0]
+    sample = sample[: 150 if ctx.tier == "quick" else 1500]
+    d_ = scratch_dir("c12o")
+    try:
+        with open(os.path.join(d_, "cases.jsonl"), "w") as fh:
+            for c in sample:
+                fh.write(json.dumps({k: v for k, v in c.items() if k != "interpreter"}) + "\n")
+        p = subprocess.run([sys.executable, "-O", os.path.join(os.path.dirname(os.path.abspath(__file__)), "c12_child.py"), os.path.join(d_, "cases.jsonl")],
+                           stdout=subprocess.PIPE, stderr=subprocess.PIPE, timeout=600)
+        lines = p.stdout.decode().splitlines()
+        if p.returncode != 0 or len(lines) != len(sample):
+            ctx.notes.append("python -O child failed: " + p.stderr.decode("utf-8", "replace")[-300:])
+            return
+        for c, ln in zip(sample, lines):
+            ctx.count("optimised-interpreter")
+            here, there = summary(c), json.loads(ln)
+            if here != there:
+                ctx.fail(dict(c, interpreter="-O"), "in an interpreter started with -O, decoding / the round trip gives another result" + (" (raises %s)" % there["raises"] if "raises" in there else ""), "differs-under-python-O", {"here": str(here)[:300], "there": str(there)[:300]})
+                return
+    finally:
+        shutil.rmtree(d_, ignore_errors=True)
+
+
 def check_cases(ctx, cases):
     import attr
 
+    optimised_interpreter(ctx, cases)
     reqs = []
     post = []
     for case in cases:
